@@ -23,6 +23,54 @@ type prCtx struct {
 	valueMode bool // the function returns a value, not text
 	alias     string // body translators: the local that aliases the object being filled
 	ext       bool   // the forms of internal/natsort: while loops, parallel assignment, s[a:b] (off for the reviewed tables)
+	// the forms of internal/enc (off for every other table): byte arithmetic wrapped in byte(..), conversions to
+	// []byte, make with its type argument, s[:hi], for init; cond; post, function literals (lifted), calls of
+	// function-typed variables
+	enc    bool
+	fname  string                       // enc: the function being translated (names the lifted literals)
+	lifted *[]liftedFunc                // enc: the function literals met so far
+}
+
+// a closed function literal, lifted to a body of its own
+type liftedFunc struct{ name, params, body string }
+
+// closedLit reports whether every identifier used in the literal denotes a parameter or local of the literal
+// itself, or something declared at package level or in the universe (so that lifting it is the identity).
+func (c *prCtx) closedLit(fl *ast.FuncLit) bool {
+	ok := true
+	ast.Inspect(fl, func(n ast.Node) bool {
+		id, isId := n.(*ast.Ident)
+		if !isId {
+			return true
+		}
+		obj := c.tp.info.Uses[id]
+		if obj == nil {
+			return true // a definition, a field name
+		}
+		if obj.Pos() >= fl.Pos() && obj.Pos() < fl.End() {
+			return true // declared inside the literal
+		}
+		if obj.Parent() == types.Universe || (obj.Pkg() != nil && obj.Parent() == obj.Pkg().Scope()) {
+			return true
+		}
+		if _, isPkg := obj.(*types.PkgName); isPkg {
+			return true
+		}
+		if _, isFunc := obj.(*types.Func); isFunc {
+			return true // a function or method of another package, reached through a selector
+		}
+		if v, isVar := obj.(*types.Var); isVar && v.IsField() {
+			return true
+		}
+		ok = false
+		return false
+	})
+	return ok
+}
+
+func isByteType(t types.Type) bool {
+	b, ok := t.Underlying().(*types.Basic)
+	return ok && b.Kind() == types.Uint8
 }
 
 func (c *prCtx) src(n ast.Node) string { return strings.Join(strings.Fields(exprString(c.tp.fset, n)), " ") }
@@ -69,12 +117,54 @@ func (c *prCtx) expr(e ast.Expr) string {
 		var args []string
 		for i, a := range e.Args {
 			if id, ok := e.Fun.(*ast.Ident); ok && id.Name == "make" && i == 0 {
+				if c.enc {
+					args = append(args, fmt.Sprintf("(EStr %s)", coqString(c.src(a)))) // the type argument, as written
+				}
 				continue // the type argument
 			}
 			args = append(args, c.expr(a))
 		}
+		if c.enc {
+			// a conversion to a slice type, []byte(s): the type as written names the conversion
+			if at, ok := e.Fun.(*ast.ArrayType); ok && at.Len == nil {
+				return fmt.Sprintf("(ECall (EId %s) [%s])", coqString(c.src(at)), strings.Join(args, "; "))
+			}
+			// a call of a function-typed variable (a parameter or a local bound to a function literal)
+			if id, ok := e.Fun.(*ast.Ident); ok {
+				if v, isVar := c.tp.info.Uses[id].(*types.Var); isVar {
+					if _, isSig := v.Type().Underlying().(*types.Signature); isSig {
+						return fmt.Sprintf("(ECallVal (EId %s) [%s])", coqString(id.Name), strings.Join(args, "; "))
+					}
+				}
+			}
+		}
 		return fmt.Sprintf("(ECall %s [%s])", c.expr(e.Fun), strings.Join(args, "; "))
+	case *ast.FuncLit:
+		if c.enc && c.lifted != nil && c.closedLit(e) {
+			sub := &prCtx{tp: c.tp, valueMode: true, ext: true, enc: true, fname: c.fname, lifted: c.lifted}
+			var ps []string
+			for _, p := range e.Type.Params.List {
+				for _, nm := range p.Names {
+					ps = append(ps, nm.Name)
+				}
+			}
+			body := sub.block(e.Body.List)
+			c.unknown += sub.unknown
+			name := fmt.Sprintf("%s$%d", c.fname, len(*c.lifted)+1)
+			*c.lifted = append(*c.lifted, liftedFunc{name, strings.Join(ps, ","), body})
+			return fmt.Sprintf("(EFunc %s)", coqString(name))
+		}
 	case *ast.BinaryExpr:
+		if c.enc {
+			// arithmetic at type byte wraps around: the operation is followed by the (identity) conversion byte(..),
+			// which the evaluator reads as reduction modulo 256
+			if tv, ok := c.tp.info.Types[e]; ok && isByteType(tv.Type) {
+				switch e.Op {
+				case token.ADD, token.SUB, token.MUL, token.SHL:
+					return fmt.Sprintf("(ECall (EId \"byte\") [(EBin %s %s %s)])", coqString(e.Op.String()), c.expr(e.X), c.expr(e.Y))
+				}
+			}
+		}
 		return fmt.Sprintf("(EBin %s %s %s)", coqString(e.Op.String()), c.expr(e.X), c.expr(e.Y))
 	case *ast.UnaryExpr:
 		if e.Op == token.NOT {
@@ -184,6 +274,9 @@ func (c *prCtx) expr(e ast.Expr) string {
 		}
 		if c.ext && e.Low != nil && e.High != nil && !e.Slice3 {
 			return fmt.Sprintf("(ESlice %s %s %s)", c.expr(e.X), c.expr(e.Low), c.expr(e.High))
+		}
+		if c.enc && e.Low == nil && e.High != nil && !e.Slice3 {
+			return fmt.Sprintf("(ESlice %s (EConst \"\" 0%%Z) %s)", c.expr(e.X), c.expr(e.High)) // e[:hi] is e[0:hi]
 		}
 	}
 	return fmt.Sprintf("(EOther %s)", coqString(c.src(e)))
@@ -536,6 +629,14 @@ func (c *prCtx) stmt(st ast.Stmt) []string {
 			}
 			return []string{fmt.Sprintf("SWhile %s %s %s", c.expr(st.Cond), post, c.block(st.Body.List))}
 		}
+		if c.enc && st.Init != nil && st.Cond != nil {
+			// for init; cond; post { body }: the init statement and the loop in a block of their own (the scope of i)
+			post := "[]"
+			if st.Post != nil {
+				post = "[" + strings.Join(c.stmt(st.Post), "; ") + "]"
+			}
+			return []string{fmt.Sprintf("SBlock [%s; SWhile %s %s %s]", strings.Join(c.stmt(st.Init), "; "), c.expr(st.Cond), post, c.block(st.Body.List))}
+		}
 		if st.Init != nil && st.Cond != nil && st.Post != nil {
 			ini, ok1 := st.Init.(*ast.AssignStmt)
 			post, ok2 := st.Post.(*ast.AssignStmt)
@@ -675,7 +776,9 @@ func genPrinters(repo, out string) {
 | EComposite (ty : string) (fields : list (string * gexpr))   (* T{f: e, ...} and &T{...} *)
 | ETuple (es : list gexpr)                      (* the results of a return with several values *)
 | EOther (src : string)
-| ESlice (e lo hi : gexpr).                     (* e[lo:hi] *)
+| ESlice (e lo hi : gexpr)                      (* e[lo:hi] *)
+| EFunc (name : string)                         (* a closed function literal, lifted to the body of that name *)
+| ECallVal (f : gexpr) (args : list gexpr).     (* a call of a function value (a variable of function type) *)
 Inductive gstmt :=
 | SLit (s : string)
 | SArg (verb : string) (e : gexpr)
@@ -696,7 +799,8 @@ Inductive gstmt :=
 | SStop
 | SPanic
 | SUnknown (s : string)
-| SWhile (cond : gexpr) (post : list gstmt) (body : list gstmt).   (* for cond { body } and for ; cond; post { body } *)
+| SWhile (cond : gexpr) (post : list gstmt) (body : list gstmt)    (* for cond { body } and for ; cond; post { body } *)
+| SBlock (body : list gstmt).                                      (* { body }: a scope of its own (for init; cond; post) *)
 (* p_type is package.Type for a method, empty for a package-level helper *)
 Record printer := { p_pkg : string; p_type : string; p_method : string; p_recv : string; p_body : list gstmt }.`)
 	type item struct{ pkg, typ, method, recv, body string }
@@ -1024,6 +1128,47 @@ Record printer := { p_pkg : string; p_type : string; p_method : string; p_recv :
 		for i, it := range nat {
 			sep := ";"
 			if i == len(nat)-1 {
+				sep = ""
+			}
+			fmt.Fprintf(f, "  {| p_pkg := %s; p_type := %s; p_method := %s; p_recv := %s; p_body := %s |}%s\n", coqString(it.pkg), coqString(it.typ), coqString(it.method), coqString(it.recv), it.body, sep)
+		}
+		fmt.Fprintln(f, "].")
+	}
+	// internal/enc: every function of the package, in a table of its own (Proofs/EncRefinement.v runs them against
+	// Model/Enc.v).  The functions of the package call each other by their bare names, so that is how they are
+	// entered.  A function literal (the valid predicates handed to Escape) refers to nothing but its parameter and
+	// package-level constants: it is lifted to an entry F$n of its own and the literal becomes EFunc F$n.
+	{
+		tp := loadTyped(repo, "internal/enc", "github.com/llir/llvm/internal/enc")
+		var encs []item
+		unknown := 0
+		for _, file := range tp.files {
+			for _, decl := range file.Decls {
+				fd, ok := decl.(*ast.FuncDecl)
+				if !ok || fd.Body == nil || fd.Recv != nil {
+					continue
+				}
+				var lifted []liftedFunc
+				c := &prCtx{tp: tp, valueMode: true, ext: true, enc: true, fname: fd.Name.Name, lifted: &lifted}
+				var ps []string
+				for _, p := range fd.Type.Params.List {
+					for _, nm := range p.Names {
+						ps = append(ps, nm.Name)
+					}
+				}
+				encs = append(encs, item{"enc", "", fd.Name.Name, strings.Join(ps, ","), c.block(fd.Body.List)})
+				for _, l := range lifted {
+					encs = append(encs, item{"enc", "", l.name, l.params, l.body})
+				}
+				unknown += c.unknown
+			}
+		}
+		fmt.Printf("printers internal/enc: %d bodies, %d unknown statements\n", len(encs), unknown)
+		sort.Slice(encs, func(i, j int) bool { return encs[i].method < encs[j].method })
+		fmt.Fprintln(f, "Definition enc_bodies : list printer := [")
+		for i, it := range encs {
+			sep := ";"
+			if i == len(encs)-1 {
 				sep = ""
 			}
 			fmt.Fprintf(f, "  {| p_pkg := %s; p_type := %s; p_method := %s; p_recv := %s; p_body := %s |}%s\n", coqString(it.pkg), coqString(it.typ), coqString(it.method), coqString(it.recv), it.body, sep)
